@@ -143,16 +143,35 @@ def walk(f, core=False):
 
 # ------------------------------------------------------------------ canonical forms
 
-def canon(tree, drop=()):
-    """ids -> first-occurrence indices; optionally drop keys (e.g. timestamps)."""
-    table = {}
+def canon(tree, drop=(), table=None):
+    """ids -> the name path of the entity's defining occurrence (owned position in the tree), so two
+    trees are equal iff they are isomorphic up to a renaming of ids; optionally drop keys."""
+    if table is None:
+        table = {}
+
+    def define(t, path):
+        if isinstance(t, dict):
+            if "$k" in t and isinstance(t.get("id"), dict) and "$id" in t["id"]:
+                i = t["id"]["$id"]
+                if isinstance(i, str) and i not in table:
+                    table[i] = "@" + path
+            for k, v in t.items():
+                if k in drop:
+                    continue
+                if isinstance(v, list):
+                    for j, x in enumerate(v):
+                        nm = x.get("name") if isinstance(x, dict) and isinstance(x.get("name"), str) else None
+                        define(x, "%s/%s[%s]" % (path, k, nm if nm is not None else j))
+                elif isinstance(v, dict):
+                    define(v, "%s/%s" % (path, k))
+        elif isinstance(t, list):
+            for j, x in enumerate(t):
+                define(x, "%s[%d]" % (path, j))
 
     def cid(x):
         if not isinstance(x, str):
             return x
-        if x not in table:
-            table[x] = "#%d" % len(table)
-        return table[x]
+        return table.get(x, "?unknown-id")
 
     def go(t):
         if isinstance(t, dict):
@@ -165,6 +184,7 @@ def canon(tree, drop=()):
             return [go(x) for x in t]
         return t
 
+    define(tree, "")
     return go(tree)
 
 
